@@ -384,7 +384,8 @@ def check(prop, tier, seed):
         else:
             for fl in pred.get("failures", []):
                 violations.append(fl)
-            if not pred.get("failures"):
+            # listed known findings do not count against the obligation
+            if all(any(k["key"] == fl.get("key") for k in known) for fl in pred.get("failures", [])):
                 discharged += 1
 
     # table-level facts reported by the translator for this property (each a separate obligation)
